@@ -9,10 +9,12 @@ CONSTANTS
   CachePutBeforeDbWrite = FALSE
   BulkVersionsUsesEpoch = FALSE
   FillPolicy = "if_same_generation"
+  FlushIgnoresCleanFlag = TRUE
   Export = TRUE
   MaxSteps = 3
   WithReads = FALSE
   SplitReads = FALSE
+  WithExt = FALSE
 INIT MCInit
 NEXT MCNext
 VIEW View
